@@ -48,26 +48,34 @@ def define_entities(db):
 
 
 def make_template(path):
-    """schema + initial rows, written once through Pony without the fault layer"""
-    from pony.orm import Database, db_session
+    """schema from Pony's DDL text, initial rows inserted with plain sqlite3: no Pony session is involved in the setup"""
+    import sqlite3
+    from pony.orm import Database
     for p in (path, path + '-journal'):
         if os.path.exists(p):
             os.remove(p)
     db = Database()
-    E = define_entities(db)
-    db.bind('sqlite', path, create_db=True)
-    db.generate_mapping(create_tables=True)
-    with db_session:
-        t1 = E['Tag'](id=1, label='red')
-        t2 = E['Tag'](id=2, label='blue')
-        p1 = E['Person'](name='ann', age=30, tags=[t1])
-        p2 = E['Person'](name='bob', tags=[t1, t2])
-        E['Item'](owner=p1, qty=1)
-        E['Item'](owner=p2, qty=2)
-        E['Item'](qty=3)
-        E['Note'](id=1, text='one', n=1)
-        E['Note'](id=2, text='two')
-    db.disconnect()
+    define_entities(db)
+    db.bind('sqlite', ':memory:')
+    db.generate_mapping(check_tables=False, create_tables=False)
+    script = db.schema.generate_create_script()
+    con = sqlite3.connect(path)
+    con.executescript(script)
+    for sql in ("""insert into "Tag" ("id", "label") values (1, 'red')""",
+                """insert into "Tag" ("id", "label") values (2, 'blue')""",
+                """insert into "Person" ("id", "name", "age") values (1, 'ann', 30)""",
+                """insert into "Person" ("id", "name") values (2, 'bob')""",
+                """insert into "Person_Tag" ("person", "tag") values (1, 1)""",
+                """insert into "Person_Tag" ("person", "tag") values (2, 1)""",
+                """insert into "Person_Tag" ("person", "tag") values (2, 2)""",
+                """insert into "Item" ("id", "owner", "qty") values (1, 1, 1)""",
+                """insert into "Item" ("id", "owner", "qty") values (2, 2, 2)""",
+                """insert into "Item" ("id", "qty") values (3, 3)""",
+                """insert into "Note" ("id", "text", "n") values (1, 'one', 1)""",
+                """insert into "Note" ("id", "text") values (2, 'two')"""):
+        con.execute(sql)
+    con.commit()
+    con.close()
     return path
 
 
